@@ -22,6 +22,9 @@
 #ifndef VF_ROT
 #define VF_ROT 1 // 0: no angle given, 1: non-zero angle with arbitrary real (cos, sin), 2: fixed rational rotation (3/5, 4/5), 3: angle 0 given, 4: angle 90, 180 or 270
 #endif
+#ifndef VF_ANGLE
+#define VF_ANGLE 90.
+#endif
 #ifndef VF_G
 #define VF_G 64 // coordinates on the integer grid |v| <= VF_G
 #endif
@@ -97,11 +100,8 @@ extern "C" void k_bidist_aniso()
   vf_assume(theta != 0.);
 #endif
   double cs0 = vf_finite_double(), cs1 = vf_finite_double();
-  int quarter = vf_range(1, 3);
 #if VF_ROT == 4
-  theta = 90. * quarter;
-#else
-  (void)quarter;
+  theta = VF_ANGLE; // 90, 180 or 270: one kernel per angle
 #endif
   SpaceTarget* T1 = target(t1buf, x1, y1);
   SpaceTarget* T2 = target(t2buf, x2, y2);
@@ -128,8 +128,6 @@ extern "C" void k_bidist_aniso()
   if (theta == 90.) { c = 0.; s = 1.; }
   else if (theta == 180.) { c = -1.; s = 0.; }
   else if (theta == 270.) { c = 0.; s = -1.; }
-  vf_split(quarter == 1);
-  vf_split(quarter == 2);
 #endif
   BiTargetCheckDistance bd(radius, coeffs, angles); // REAL constructor
 #endif
